@@ -241,7 +241,7 @@ def special(prop, tier, seed, th, chk):
             for i in range(40 if tier == "quick" else 400):
                 o = subprocess.run([binp, "race", "16"], capture_output=True, text=True, env=chk.ENV).stdout.strip()
                 n += 1
-                if "all_same=true first=[E:HeaderValue m=0+3 p=4+73]" not in o:
+                if "all_same=true" not in o:
                     fails.append("FAIL C13 hard | threads racing on their first parse call disagree | variant=%s run=%d | %s" % (v, i, o))
                     break
                 m = o.split("runtime=")[-1]
